@@ -173,4 +173,30 @@ example : noFallThrough false (seqOf (den false
 observation; no planner path does this today) -/
 example : stepsOK 0 (addStep [⟨.fetch, some (.top 0), [], []⟩] ⟨.fetch, some (.top 5), [], []⟩) = false := by decide
 
+/-! ### [review] non-vacuity of the remaining hypotheses -/
+
+-- [review] non-vacuity of `C09_error_class`: `w3` (a sub-select operand whose planner never raises) meets `OperandNoInt`
+example : leavesAll OperandNoInt w3 := ⟨⟨trivial, trivial⟩, fun _ => trivial⟩
+
+example : match planJoinTables false w3 [] with | .ok _ => True | .error e => IsUserErr e :=
+  C09_error_class false w3 [] ⟨⟨trivial, trivial⟩, fun _ => trivial⟩
+
+-- [review] non-vacuity of `C09_cte_lookup` with a non-empty dictionary: `WITH ab AS (…) … FROM ab`, keys as written
+example : C09_body (planTableRef CteKeys.exact (cteStore CteKeys.exact [] [97, 98] (.top 0)) [97, 98] [])
+    [⟨.fetch, some (.top 0), [], []⟩] :=
+  C09_cte_lookup CteKeys.exact (fun _ => rfl) _ [97, 98] [] _ rfl
+    (by intro key r h; simp [cteStore, CteKeys.exact] at h; obtain ⟨_, rfl⟩ := h; decide) rfl
+
+-- … and the step it emits is a SubSelectStep on the CTE result
+example : (planTableRef CteKeys.exact (cteStore CteKeys.exact [] [97, 98] (.top 0)) [97, 98] []
+    [⟨.fetch, some (.top 0), [], []⟩]).toOption =
+    some ([⟨.fetch, some (.top 0), [], []⟩, ⟨.subselect, some (.top 1), [.top 0], []⟩], .top 1) := by decide
+
+-- [review] `C09_add_step` instantiated: a fresh map-reduce step with one sub-step referencing step 0
+example : stepsOK 0 (addStep [⟨.fetch, some (.top 0), [], []⟩]
+      ⟨.mapreduce, none, [.top 0], [⟨.apply, some (.sub 1 0), [.top 0]⟩]⟩) = true
+    ∧ (addStep [⟨.fetch, some (.top 0), [], []⟩]
+      ⟨.mapreduce, none, [.top 0], [⟨.apply, some (.sub 1 0), [.top 0]⟩]⟩).length = 2 :=
+  C09_add_step _ _ rfl (Or.inl rfl) (by decide) (by decide)
+
 end MindsVerif.Props.C09
